@@ -103,8 +103,8 @@ theorem touching_windows_core_spec (things containers : List Row) (window : Int)
     touchingWindowsCore things containers window = touchSpec things containers window :=
   touchingWindowsCore_eq_spec window hc ht he
 
-/-- non-vacuity: the hypotheses hold on a concrete instance with overlapping containers and a negative window, and the
-theorem computes its answer (`mergeSort` does not reduce by `decide`, so the instance goes through the theorem) -/
+/-- non-vacuity: the hypotheses hold on a concrete instance with overlapping containers and a negative window, and
+the statement computes its answer (`mergeSort` does not reduce by `decide`, so the instance goes through it) -/
 example : touchingWindows [⟨0, 2, 0⟩, ⟨1, 4, 1⟩, ⟨6, 7, 2⟩] [⟨2, 9, 0⟩, ⟨3, 5, 1⟩] (-1) = .ok [(1, 3), (2, 2)] := by
   rw [touching_windows_spec _ _ _ (by decide) (by decide) (by decide) (by decide) (by decide)]
   decide
